@@ -35,3 +35,23 @@ pub(crate) fn load_stub<IntT: for<'a> UInt<'a>>(filename: &str) -> Result<MergeS
     };
     Ok(marked_array(mark))
 }
+
+/// an array with `n` (unnamed) samples and no rows — for wrapper harnesses that only need nsamples()
+pub(crate) fn blank_array<IntT: for<'a> UInt<'a>>(n: usize) -> MergeSkaArray<IntT> {
+    let mut names = Vec::new();
+    let mut i = 0;
+    while i < n {
+        names.push(String::new());
+        i += 1;
+    }
+    MergeSkaArray::<IntT> {
+        k: 31,
+        rc: true,
+        names,
+        split_kmers: Vec::new(),
+        variants: Array2::zeros((0, n)),
+        variant_count: Vec::new(),
+        ska_version: String::new(),
+        k_bits: 64,
+    }
+}
